@@ -1,5 +1,7 @@
 import PoseVerif.Model.JS
 import PoseVerif.Proofs.Window2
+import PoseVerif.Proofs.JSV00
+import PoseVerif.Props.C04
 /-!
 # C05 — the JavaScript reader and the Python reader agree on every file (v0.1 / v0.2)
 
@@ -90,4 +92,101 @@ def sample : Pose :=
     body := { fps := .f32 0x41C80000, frames := 2, people := 1, points := 2, dims := 2, data := [1, 2, 3, 4, 5, 6, 7, 8], conf := [9, 10, 11, 12], missing := [] } }
 example : (sample.write?.bind (jsParse versionClass)).map (fun r => (r.2.2.data, r.2.2.conf, r.2.2.coord 1 0 0 1 0, r.2.2.confidence 1 0 0 1))
     = some ([1, 2, 3, 4, 5, 6, 7, 8], [9, 10, 11, 12], 7, 12) := by decide +kernel
+/-! ### v0.0 -/
+
+open Prog
+
+/-- **parser.ts on a reference v0.0 file**: the header, its length, fps and, frame by frame, every listed person with its id and every component's points -/
+theorem js_v00_enc (h : Header) (hr : h.Rep) (fps : Nat) (frames : List (List PersonV00)) (hfps : fps < 65536) (hnf : frames.length < 65536)
+    (hpeople : ∀ ps ∈ frames, ps.length < 65536) (hid : ∀ ps ∈ frames, ∀ p ∈ ps, p.id < 65536)
+    (hfit : ∀ ps ∈ frames, ∀ p ∈ ps, p.blocks.length = h.comps.length ∧ ∀ cv ∈ h.comps.zip p.blocks, cv.2.length = cv.1.points.length * cv.1.format.length) :
+    jsParseV00 (specFileV00 h fps frames) = some ({ h with version := 0 }, (specHeader h 0).length, fps, frames.map (List.map (jsOfPersonV00 h.comps))) := by
+  have henc : encHeaderAny? { h with version := 0 } = some (specHeader h 0) := encHeaderAny?_of_rep _ (Header.Rep_version 0 hr)
+  have hh := Enc_rdHeaderRaw _ _ (specBodyV00 fps frames) henc
+  unfold jsParseV00 specFileV00
+  rw [hh]
+  simp only []
+  have hrel : Rel (jsBodyV00 { h with version := 0 }) := Rel_bind _ _ Rel_rd2U16 fun _ => Rel_bind _ _ (Rel_many _ (Rel_jsFrameV00 _) _) fun _ => trivial
+  rw [runBR_drop _ hrel _ _ (by simp), List.drop_left]
+  have hbody : runBR (jsBodyV00 { h with version := 0 }) (specBodyV00 fps frames) 0 =
+      some ((fps, frames.map (List.map (jsOfPersonV00 h.comps))), (specBodyV00 fps frames).length) := by
+    unfold jsBodyV00 specBodyV00
+    have e0 : putU16 fps ++ putU16 frames.length ++ (frames.map specFrameV00).flatten = (putU16 fps ++ putU16 frames.length) ++ ((frames.map specFrameV00).flatten ++ []) := by simp
+    rw [e0, List.length_append]
+    refine seq_enc (Enc_rd2U16 (fps, frames.length) _ _ (pack2U16?_of_lt hfps hnf)) (Rel_bind _ _ (Rel_many _ (Rel_jsFrameV00 _) _) fun _ => trivial) ?_
+    rw [runBR_bind_some (run_many_dec (jsFrameV00 h.comps) (Rel_jsFrameV00 _) specFrameV00 (List.map (jsOfPersonV00 h.comps)) frames []
+      fun ps hps r => jsFrame_spec h.comps ps (hpeople ps hps) (hid ps hps) (hfit ps hps) r)]
+    simp [runBR]
+  rw [hbody]
+  rfl
+
+/-- what Python keeps of the JavaScript result: per frame the first person's points, coordinates = all letters but the last, confidence = the last; zeros for an empty frame -/
+def pyViewOfJS (points dims : Nat) (frames : List (List JSPersonV00)) : List (List F32 × List F32) :=
+  frames.map fun ps => match ps with
+    | [] => (List.replicate (points * dims) 0, List.replicate points 0)
+    | p :: _ => ((p.comps.map fun rows => (rows.map fun r => r.take (r.length - 1)).flatten).flatten, (p.comps.map fun rows => rows.map fun r => r.getD (r.length - 1) 0).flatten)
+
+theorem frame_view_eq (comps : List Comp) (points dims : Nat) (ps : List PersonV00) (hp : ∀ p ∈ ps, p.Fits comps) :
+    decodeFrameV00 comps points dims ps =
+      (match ps.map (jsOfPersonV00 comps) with
+        | [] => (List.replicate (points * dims) 0, List.replicate points 0)
+        | p :: _ => ((p.comps.map fun rows => (rows.map fun r => r.take (r.length - 1)).flatten).flatten, (p.comps.map fun rows => rows.map fun r => r.getD (r.length - 1) 0).flatten)) := by
+  cases ps with
+  | nil => rfl
+  | cons p rest =>
+    have hfit := hp p (by simp)
+    simp only [decodeFrameV00, List.map_cons, jsOfPersonV00]
+    have key : ∀ (cs : List Comp) (bl : List (List F32)), (∀ cv ∈ cs.zip bl, cv.2.length = cv.1.points.length * cv.1.format.length ∧ 2 ≤ cv.1.format.length) →
+        (List.zipWith decodeBlock cs bl).map (·.2.1) = (List.zipWith (fun c vals => rowsOf c.points.length c.format.length vals) cs bl).map (fun rows => (rows.map fun r => r.take (r.length - 1)).flatten) ∧
+        (List.zipWith decodeBlock cs bl).map (·.2.2) = (List.zipWith (fun c vals => rowsOf c.points.length c.format.length vals) cs bl).map (fun rows => rows.map fun r => r.getD (r.length - 1) 0) := by
+      intro cs
+      induction cs with
+      | nil => intro bl _; simp
+      | cons c cs ih =>
+        intro bl hw
+        cases bl with
+        | nil => simp
+        | cons v vs =>
+          obtain ⟨i1, i2⟩ := ih vs (fun cv hcv => hw cv (by simp only [List.zip_cons_cons]; exact List.mem_cons_of_mem _ hcv))
+          have hv := (hw (c, v) (by simp)).1
+          simp only [] at hv
+          have hrows := rowsOf_lengths c.points.length c.format.length v hv
+          simp only [List.zipWith_cons_cons, List.map_cons, i1, i2, decodeBlock]
+          refine ⟨?_, ?_⟩
+          · congr 2
+            apply List.map_congr_left
+            intro r hr; rw [hrows r hr]
+          · congr 1
+            apply List.map_congr_left
+            intro r hr; rw [hrows r hr]
+    obtain ⟨k1, k2⟩ := key comps p.blocks hfit.2
+    rw [k1, k2]
+
+/-- **v0.0: the two readers agree on every reference-encoded file.** parser.ts reports every listed person; the Python reader returns, frame by frame, exactly the
+    first of them (coordinates = all letters of the format but the last, confidence = the last), and zeros for a frame in which parser.ts lists nobody;
+    same header, header length (= where the body starts), fps and frame count. -/
+theorem js_agrees_v00 (h : Header) (hr : h.Rep) (dims fps : Nat) (frames : List (List PersonV00)) (hfps : fps < 65536) (hnf : frames.length < 65536) (hf1 : frames ≠ [])
+    (hd1 : 1 ≤ dims) (hne : h.comps ≠ []) (hfmt : ∀ c ∈ h.comps, c.format.length = dims + 1)
+    (hpeople : ∀ ps ∈ frames, ps.length < 65536) (hid : ∀ ps ∈ frames, ∀ p ∈ ps, p.id < 65536) (hfit : ∀ ps ∈ frames, ∀ p ∈ ps, p.Fits h.comps) :
+    ∃ (jsf : List (List JSPersonV00)) (body : Body),
+      jsParseV00 (specFileV00 h fps frames) = some ({ h with version := 0 }, (specHeader h 0).length, fps, jsf) ∧
+      readFull (specFileV00 h fps frames) = some ⟨{ h with version := 0 }, body⟩ ∧
+      body.fps = .int fps ∧ body.frames = jsf.length ∧ body.people = 1 ∧
+      body.data = ((pyViewOfJS h.totalPoints dims jsf).map (·.1)).flatten ∧ body.conf = ((pyViewOfJS h.totalPoints dims jsf).map (·.2)).flatten := by
+  refine ⟨frames.map (List.map (jsOfPersonV00 h.comps)), decodedBodyV00 h dims fps frames, ?_, ?_, rfl, by simp [decodedBodyV00], rfl, ?_, ?_⟩
+  · exact js_v00_enc h hr fps frames hfps hnf hpeople hid (fun ps hps p hp => ⟨(hfit ps hps p hp).1, fun cv hcv => ((hfit ps hps p hp).2 cv hcv).1⟩)
+  · exact C04.readV00_enc h hr dims fps frames hfps hnf hf1 hd1 hne hfmt hpeople hfit
+  · simp only [decodedBodyV00, pyViewOfJS, List.map_map]
+    congr 1
+    apply List.map_congr_left
+    intro ps hps
+    simp only [Function.comp]
+    rw [frame_view_eq h.comps h.totalPoints dims ps (hfit ps hps)]
+  · simp only [decodedBodyV00, pyViewOfJS, List.map_map]
+    congr 1
+    apply List.map_congr_left
+    intro ps hps
+    simp only [Function.comp]
+    rw [frame_view_eq h.comps h.totalPoints dims ps (hfit ps hps)]
+
 end PoseVerif.Props.C05
